@@ -32,8 +32,9 @@ def run(ctx):
     if ctx.tier != "thorough":
         stack = [i for i in insts if i["kind"] == "stack"]
         nulls = [i for i in insts if i["kind"] == "null"]
-        rest = [i for i in insts if i["kind"] not in ("stack", "null")]          # (unit, dtypes and all 480 routing instances)
-        insts = rng.sample(stack, 1500) + rng.sample(nulls, 1500) + rest
+        udet = [i for i in insts if i["kind"] == "unitdet"]
+        rest = [i for i in insts if i["kind"] not in ("stack", "null", "unitdet")]          # (unit, dtypes, depth, sss, csv and all 480 routing instances)
+        insts = rng.sample(stack, 1500) + rng.sample(nulls, 1500) + rng.sample(udet, 2000) + rest
     ctx.exhaustive = ctx.tier == "thorough"
     events = []
     work = tlc.scratch("ext")
@@ -100,6 +101,89 @@ def run(ctx):
                     kw["encoding"] = inst["explicit"]
                 las = lasio.read(path, **kw)
                 obs = str(las.encoding)
+            elif k == "unitdet":
+                u = inst["units"]
+                text = ("~V\nVERS. 2.0:\nWRAP. NO:\n~W\nSTRT.%s 1.0 : a\nSTOP.%s 2.0 : b\nSTEP.%s 1.0 : c\nNULL. -999.25:\n~C\nDEPT.%s : d\nGR.GAPI : g\n~A\n1 5\n2 6\n"
+                        % tuple(u))
+                las = lasio.read(text)
+                got_units = [las.well["STRT"].unit, las.well["STOP"].unit, las.well["STEP"].unit, las.curves[0].unit]
+                obs = str(las.index_unit) if got_units == list(u) else "UNITS-MISREAD:%r" % (got_units,)
+            elif k == "depth":
+                las = lasio.LASFile()
+                idx = np.array([0.0, 1.5, 120.0, 1000.25, 3048.0])
+                las.append_curve("DEPT", idx.copy())
+                las.index_unit = None if inst["unit"] == "None" else inst["unit"]
+                forms = {"index": idx, "index/0.3048": idx / 0.3048, "index*0.3048": idx * 0.3048, "(index/120)*0.3048": (idx / 120) * 0.3048,
+                         "index/120": idx / 120}
+                try:
+                    out = las.depth_m if inst["want"] == "m" else las.depth_ft
+                    hits = [name for name, arr in forms.items() if np.array_equal(np.asarray(out), arr)]
+                    obs = hits[0] if len(hits) == 1 else "OTHER:%r" % (list(np.asarray(out)),)
+                except lasio.exceptions.LASUnknownUnitError:
+                    obs = "LASUnknownUnitError"
+            elif k == "sss":
+                las = lasio.LASFile()
+                idx = {"nocurves": None, "len0": [], "len1": [7.5], "regular": [1.0, 1.5, 2.0, 2.5], "irregular": [1.0, 1.25, 2.0, 4.0]}[inst["index"]]
+                if idx is not None:
+                    las.append_curve("DEPT", np.array(idx, dtype=float))
+                    las.append_curve("GR", np.arange(len(idx), dtype=float))
+                for m in ("STRT", "STOP", "STEP"):
+                    las.well[m].value = "untouched"
+                kw = {}
+                given = {"STRT": 111.5, "STOP": "222", "STEP": 0}
+                for m, flag in (("STRT", inst["strt"]), ("STOP", inst["stop"]), ("STEP", inst["step"])):
+                    if flag:
+                        kw[m] = given[m]
+                las.update_start_stop_step(**kw)
+                obs = []
+                for m in ("STRT", "STOP", "STEP"):
+                    v = las.well[m].value
+                    cands = {"None": None, "untouched": "untouched"}
+                    if m in kw:
+                        cands["arg"] = given[m]
+                    if idx:
+                        cands["fmt(index[0])"] = "%.5f" % idx[0]
+                        cands["fmt(index[-1])"] = "%.5f" % idx[-1]
+                    if idx and len(idx) > 1:
+                        cands["fmt(index[1]-index[0])"] = "%.5f" % (idx[1] - idx[0])
+                    want = inst["expect"][("STRT", "STOP", "STEP").index(m)]
+                    hits = [t for t, c in cands.items() if type(c) is type(v) and c == v]
+                    obs.append(want if want in hits else (hits[0] if hits else "OTHER:%r" % (v,)))
+            elif k == "csv":
+                las = lasio.LASFile()
+                las.append_curve("DEPT", np.array([1.0, 2.0]), unit="m")
+                las.append_curve("GR", np.array([5.0, 6.0]), unit="gAPI")
+                las.append_curve("GR", np.array([7.0, 8.0]), unit="")
+                args = {"true": True, "false": False, "empty": []}
+                mn = args.get(inst["mn"], ["a", "b", "c"])
+                un = args.get(inst["un"], ["x", "y", "z"])
+                import io
+                buf = io.StringIO()
+                kw = {"mnemonics": mn, "units": un}
+                if inst["loc"] != "none":
+                    kw["units_loc"] = inst["loc"]
+                else:
+                    kw["units_loc"] = None
+                las.to_csv(buf, **kw)
+                lines = buf.getvalue().split("\n")
+                assert lines[-1] == "" and lines[-3:-1] == ["1.0,5.0,7.0", "2.0,6.0,8.0"], lines
+                mrow = {"true": ["DEPT", "GR", "GR"], "list": ["a", "b", "c"]}
+                urow = {"true": ["m", "gAPI", ""], "list": ["x", "y", "z"]}
+                names = {}
+                for a, mr in mrow.items():
+                    names[",".join(mr)] = a + "-mnemonics"
+                    for b, ur in urow.items():
+                        for lc in ("[]", "()"):
+                            names[",".join(m + " " + lc[0] + u_ + lc[1] for m, u_ in zip(mr, ur))] = "%s-mnemonics %s %s-units" % (a, lc, b)
+                for b, ur in urow.items():
+                    names[",".join(ur)] = b + "-units"
+                obs = [names.get(ln, "OTHER:" + ln) for ln in lines[:-3]]
+            elif k == "igdata":
+                rows = "".join("%d %d\n" % (i, i + 10) for i in range(inst["rows"]))
+                text = "~V\nVERS. 2.0:\nWRAP. NO:\n~W\nNULL. -999.25:\n~C\nDEPT.M : d\nGR.GAPI : g\n~A\n" + rows
+                las = lasio.read(text, ignore_data=bool(inst["flag"]))
+                lens = set(len(c.data) for c in las.curves)
+                obs = lens.pop() if len(lens) == 1 and [c.mnemonic for c in las.curves] == ["DEPT", "GR"] else "OTHER:%r" % ([c.mnemonic for c in las.curves],)
             elif k == "dtypes":
                 spec = inst["spec"]
                 kinds = {"f": float, "i": int, "U": str}
